@@ -225,7 +225,10 @@ TEMPLATES = (
     r"\{" + MAGIC_NOWIKI_CHAR + r"?\{((?:"
     r"[^{}]{?|"  # lone possible { and also default "any"
     r"}(?=[^{}])|"  # lone `}`, (?=...) is not consumed (lookahead)
-    r"-{}-|"  # GitHub issue #59 Chinese wiktionary special `-{}-`
+    # GitHub issue #59 Chinese wiktionary special `-{}-` needs no alternative
+    # of its own: it is matched as `-{`, lone `}`, `-` by the two alternatives
+    # above.  A separate `-{}-` alternative gives every `-{}-` two ways to
+    # match, and an unclosed `{{` followed by n of them backtracks 2**n times.
     r"}{|"  # latex argument: "<math>\frac{1}{2}</math>"
     r")+?)\}" + MAGIC_NOWIKI_CHAR + r"?\}"
 )
